@@ -342,40 +342,40 @@ pub fn main(args: &Args) -> i32 {
         (
             "two-callers",
             Params { callers: 2, noreply: false, timeout: false, eof: true, strays: 1 },
-            if quick { vec![Some(2), Some(3), Some(4), Some(5)] } else { vec![Some(3), Some(4), Some(5), Some(6), None] },
+            if quick { vec![Some(4)] } else { vec![Some(6), None] },
         ),
         (
             "two-callers-noreply",
             Params { callers: 2, noreply: true, timeout: false, eof: false, strays: 0 },
-            if quick { vec![Some(2), Some(3), Some(4)] } else { vec![Some(3), Some(4), Some(5), Some(6)] },
+            if quick { vec![Some(3)] } else { vec![Some(5), Some(6)] },
         ),
         (
             "three-callers",
             Params { callers: 3, noreply: false, timeout: false, eof: true, strays: 1 },
-            if quick { vec![Some(2), Some(3), Some(4)] } else { vec![Some(3), Some(4), Some(5), Some(6)] },
+            if quick { vec![Some(3)] } else { vec![Some(5), Some(6)] },
         ),
         (
             "timeout-one-caller",
             Params { callers: 1, noreply: false, timeout: true, eof: true, strays: 1 },
-            if quick { vec![Some(3), None] } else { vec![None] },
+            vec![None],
         ),
         (
             "timeout-two-callers",
             Params { callers: 2, noreply: false, timeout: true, eof: false, strays: 0 },
-            if quick { vec![Some(2), Some(3), Some(4)] } else { vec![Some(3), Some(4), Some(5), Some(6)] },
+            if quick { vec![Some(3)] } else { vec![Some(5), Some(6)] },
         ),
         (
             "queue-pressure",
             // more stray replies than the method-return queue holds (8)
             Params { callers: 2, noreply: false, timeout: false, eof: false, strays: 10 },
-            if quick { vec![Some(1), Some(2), Some(3)] } else { vec![Some(2), Some(3), Some(4), Some(5)] },
+            if quick { vec![Some(3)] } else { vec![Some(5)] },
         ),
     ];
     for (name, p, bounds) in scenarios {
         let plan = SchedPlan {
             bounds,
             max_execs: args.tier.pick(3_000_000, 60_000_000),
-            time_budget_s: args.tier.pick(6.0, 150.0),
+            time_budget_s: args.tier.pick(120.0, 900.0),
         };
         run_scenario(
             &report,
